@@ -278,6 +278,7 @@ def c14(tier, seed):
     c.require("directed:slot0-structure-found", 1)
     c.require("directed:slot0-clear-pawnless", 3)
     c.require("directed:A-B-A", 8)
+    c.require("directed:32bit-collision-A-B-A", 4)
     c.require("clears", 100)
     return c.finish()
 
